@@ -1,4 +1,6 @@
 import MD.Proofs.TableLemmas
+import Mathlib.Algebra.Order.Field.Rat
+import Mathlib.Tactic.NormNum.Basic
 
 /-! # C09 — `compute_bias(y_obs, y_pred, feature, weights, functional, level, n_bins, bin_method)`
 
@@ -191,4 +193,66 @@ theorem C09_perm_records {α : Type} [BEq α] [LawfulBEq α] (keys keys' : List 
       groupStat ((tbl_idx keys' k).filterMap (fun i => c'[i]?)) ((tbl_idx keys' k).filterMap (fun i => ws'[i]?)) :=
   tbl_group_perm keys keys' ws ws' c c' hw hc hw' hc' hperm k
 
+/-! ## examples: the hypotheses are satisfiable on concrete inputs
+
+`#eval` at `K = Rat`:
+`groupRows [Key.num 0, Key.null, Key.num 0, Key.num 1] [[1,2,3,4],[2,2,2,2]] [1,2,3,4]` has the groups
+`(num 0, count 2, weight 4, [(mean 5/2, stderr² 3/4), (2, 0)], idx [0, 2])`,
+`(null, 1, 2, [(2, 0), (2, 0)], [1])`, `(num 1, 1, 4, [(4, 0), (2, 0)], [3])`;
+`groupedTable … (nBins := 2)` keeps `null (1, 2)` and `num 0 (2, 4)`: the null group survives. -/
+
+/-- `C09_weights_total`, `C09_recombine_mean`: lengths agree, weights positive -/
+example : ([1, 2, 3, 4] : List ℚ).length = [Key.num 0, Key.null, Key.num 0, Key.num 1].length ∧
+    (∀ w ∈ ([1, 2, 3, 4] : List ℚ), 0 < w) := by
+  refine ⟨rfl, ?_⟩
+  simp
+
+example : ((groupRows [Key.num 0, Key.null, Key.num 0, Key.num 1] [[1, 2, 3, 4], [2, 2, 2, 2]]
+    ([1, 2, 3, 4] : List ℚ)).map (·.weights)).sum = 10 := by
+  rw [C09_weights_total [Key.num 0, Key.null, Key.num 0, Key.num 1] [[1, 2, 3, 4], [2, 2, 2, 2]]
+    ([1, 2, 3, 4] : List ℚ) rfl]; norm_num
+
+example : ((groupRows [Key.num 0, Key.null, Key.num 0, Key.num 1] [[1, 2, 3, 4], [2, 2, 2, 2]]
+    ([1, 2, 3, 4] : List ℚ)).map (fun g => g.weights * ((g.stats[0]?).map (·.mean)).getD 0)).sum = 30 := by
+  rw [C09_recombine [Key.num 0, Key.null, Key.num 0, Key.num 1] [[1, 2, 3, 4], [2, 2, 2, 2]]
+    ([1, 2, 3, 4] : List ℚ) 0 [1, 2, 3, 4] rfl rfl rfl
+    (fun g hg => ne_of_gt (C09_group_weight_pos [Key.num 0, Key.null, Key.num 0, Key.num 1]
+      [[1, 2, 3, 4], [2, 2, 2, 2]] ([1, 2, 3, 4] : List ℚ) rfl
+      (by intro w hw; simp at hw; rcases hw with rfl | rfl | rfl | rfl <;> norm_num) g hg))]
+  norm_num
+
+/-- `C09_null_group_kept` -/
+example : 1 ≤ 2 ∧ Key.null ∈ [Key.num 0, Key.null, Key.num 0, Key.num 1] := by simp
+
+/-- `C09_perm`: an index permutation -/
+example : List.Perm [2, 0, 3, 1] (List.range [Key.num 0, Key.null, Key.num 0, Key.num 1].length) := by
+  decide
+
+example : tbl_reorder [2, 0, 3, 1] ([1, 2, 3, 4] : List ℚ) = [3, 1, 4, 2] := rfl
+
+/-- `C09_no_truncation` -/
+example : (groupRows [Key.num 0, Key.null, Key.num 0, Key.num 1] [[1, 2, 3, 4]]
+    ([1, 2, 3, 4] : List ℚ)).length ≤ 3 := by
+  rw [tbl_groupRows_length]; decide
+
 end MD.Props
+
+/-
+`#print axioms` (observed with `lake env lean MD/Props/C09.lean`):
+'MD.Props.C09_counts_total' depends on axioms: [propext, Classical.choice, Quot.sound]
+'MD.Props.C09_weights_total' depends on axioms: [propext, Classical.choice, Quot.sound]
+'MD.Props.C09_one_group_per_key' depends on axioms: [propext, Classical.choice, Quot.sound]
+'MD.Props.C09_recombine' depends on axioms: [propext, Classical.choice, Quot.sound]
+'MD.Props.C09_group_weight_pos' depends on axioms: [propext, Classical.choice, Quot.sound]
+'MD.Props.C09_recombine_mean' depends on axioms: [propext, Classical.choice, Quot.sound]
+'MD.Props.C09_group_is_definition' depends on axioms: [propext, Classical.choice, Quot.sound]
+'MD.Props.C09_groupStat_def' depends on axioms: [propext, Quot.sound]
+'MD.Props.C09_ungrouped' depends on axioms: [propext, Quot.sound]
+'MD.Props.C09_no_truncation' depends on axioms: [propext, Quot.sound]
+'MD.Props.C09_no_truncation_numeric' depends on axioms: [propext, Classical.choice, Quot.sound]
+'MD.Props.C09_no_truncation_string' depends on axioms: [propext, Classical.choice, Quot.sound]
+'MD.Props.C09_null_group_kept' depends on axioms: [propext, Classical.choice, Quot.sound]
+'MD.Props.C09_table_rows' depends on axioms: [propext, Classical.choice, Quot.sound]
+'MD.Props.C09_perm' depends on axioms: [propext, Classical.choice, Quot.sound]
+'MD.Props.C09_perm_records' depends on axioms: [propext, Classical.choice, Quot.sound]
+-/
